@@ -11,7 +11,8 @@ import units.lower_type_gate as G
 
 NAME = "lower_method_gate"
 ENGINE = "verus"
-PROPERTIES = {"C05": "method-level gate: Ok only if self, every non-write parameter and the return type are accepted; DiplomatWrite only as last parameter",
+PROPERTIES = {"C13": "methods whose attrs are disabled for the backend are skipped by lowering (absent from the backend's HIR), the others go through the gate",
+              "C05": "method-level gate: Ok only if self, every non-write parameter and the return type are accepted; DiplomatWrite only as last parameter",
               "C15": "lower_method / lower_many_params / lower_param are panic-free"}
 F = "core/src/hir/lowering.rs"
 METHODS = "core/src/ast/methods.rs"
@@ -74,6 +75,34 @@ pub proof fn lemma_write_only_last(l: &LookupId, m: &ast::Method, in_path: ast::
     }
 }
 """
+
+LAM_SPECS = r"""
+// ---- C13 at the lowering level: methods disabled for this backend are skipped entirely
+pub open spec fn enabled_count<V: AttributeValidator>(v: &V, ms: Seq<ast::Method>, parent: Attrs, n: int) -> int
+    decreases n
+{
+    if n <= 0 { 0 } else { enabled_count(v, ms, parent, n - 1) + (if v.disabled_spec(ms[n - 1].attrs, parent) { 0int } else { 1int }) }
+}
+"""
+
+LAM_CONTRACT = f"""        ensures {CANARY}
+            // every method that is NOT disabled for this backend went through the method gate
+            res.is_ok() ==> forall|i: int| 0 <= i < ast_methods@.len() && !old(self).attr_validator.disabled_spec((#[trigger] ast_methods@[i]).attrs, *method_parent_attrs)
+                ==> method_ok(&old(self).lookup_id, &ast_methods@[i], *in_path, *old(self).env),
+            // disabled methods are absent from the backend's HIR (never lowered, never counted)
+            res.is_ok() ==> res.unwrap()@.len() <= enabled_count(&*old(self).attr_validator, ast_methods@, *method_parent_attrs, ast_methods@.len() as int),
+{G.FRAME}"""
+
+LAM_INV = """            invariant
+                self.env == old(self).env, self.lookup_id == old(self).lookup_id,
+                self.attr_validator == old(self).attr_validator, self.cfg == old(self).cfg,
+                self.errors.errors@.len() >= old(self).errors.errors@.len(),
+                methods is Err ==> self.errors.errors@.len() > old(self).errors.errors@.len(),
+                methods is Ok ==> (forall|i: int| 0 <= i < it.index@ && !old(self).attr_validator.disabled_spec((#[trigger] ast_methods@[i]).attrs, *method_parent_attrs)
+                    ==> method_ok(&old(self).lookup_id, &ast_methods@[i], *in_path, *old(self).env)),
+                methods is Ok ==> methods.unwrap()@.len() <= enabled_count(&*old(self).attr_validator, ast_methods@, *method_parent_attrs, it.index@ as int),"""
+
+LAM_HINT = """            proof { assert(method == ast_methods@[it.index@]); }"""
 
 ABSTRACT_GATES = """
     // ---- the per-type gate functions, abstract here: contracts proved on the real code in unit lower_type_gate
@@ -192,7 +221,8 @@ def build(tier):
     vf.add(c0)
     vhelp.typedef(vf, ms, "SelfParam", "struct")
     vhelp.typedef(vf, ms, "Param", "struct")
-    vf.add("    #[verifier::external_body] pub struct Docs { x: u8 }\n    impl Clone for Docs { #[verifier::external_body] fn clone(&self) -> Self { unimplemented!() } }\n")
+    vf.add("    #[verifier::external_body] pub struct Docs { x: u8 }\n    impl Clone for Docs { #[verifier::external_body] fn clone(&self) -> Self { unimplemented!() } }\n"
+           "    impl Ident { #[verifier::external_body] pub fn as_str(&self) -> &str { unimplemented!() } }\n")
     vhelp.typedef(vf, ms, "Method", "struct")
     vf.add("    impl Param {\n")
     p = Piece(ms, ms.item("impl Param::is_write", "fn"))
@@ -204,11 +234,23 @@ def build(tier):
     # hir Attrs needs a visible special_method field here
     head = head.replace("#[verifier::external_body] pub struct Attrs { x: u8 }\nimpl Attrs { #[verifier::external_body] pub fn default() -> Attrs { unimplemented!() } }",
                         "#[verifier::external_body] pub struct AttrsRest { x: u8 }\n#[derive(Copy, Clone)] pub enum SpecialMethod { Constructor, Comparison, Other }\n"
-                        "pub struct Attrs { pub special_method: Option<SpecialMethod>, pub rest: AttrsRest }\n"
+                        "pub struct Attrs { pub disable: bool, pub special_method: Option<SpecialMethod>, pub rest: AttrsRest }\n"
                         "impl Attrs { #[verifier::external_body] pub fn default() -> Attrs { unimplemented!() } }")
     head = head.replace("#[derive(Copy, Clone)] pub enum AttributeContext { SelfParam, Param, Other }",
                         "pub enum AttributeContext<'a> { SelfParam, Param, Other, Method(&'a Method, TypeId, &'a mut SpecialMethodPresence) }")
-    if "AttributeContext<'a>" not in head or "pub struct Attrs { pub special_method" not in head:
+    head = head.replace("""    fn attr_from_ast(&self, ast: &ast::Attrs, parent_attrs: &Attrs, errors: &mut ErrorStore) -> (r: Attrs)
+        ensures final(errors).errors@.len() >= old(errors).errors@.len();""", """    // whether the item is disabled for this backend: decided by Attrs::from_ast (cfg evaluation: unit cfg_eval); abstract here
+    spec fn disabled_spec(&self, ast: ast::Attrs, parent_attrs: Attrs) -> bool;
+    fn attr_from_ast(&self, ast: &ast::Attrs, parent_attrs: &Attrs, errors: &mut ErrorStore) -> (r: Attrs)
+        ensures final(errors).errors@.len() >= old(errors).errors@.len(), r.disable == self.disabled_spec(*ast, *parent_attrs);""")
+    head = head.replace("""    { self.errors.push(error); }
+}""", """    { self.errors.push(error); }
+    #[verifier::external_body]
+    pub fn set_subitem(&mut self, subitem: &str) ensures final(self).errors == old(self).errors { unimplemented!() }
+}""")
+    if "disabled_spec" not in head or "set_subitem" not in head:
+        raise Undecided("prelude-mismatch", "lower_type_gate prelude changed shape (attr_from_ast / ErrorStore)")
+    if "AttributeContext<'a>" not in head or "pub struct Attrs { pub disable" not in head:
         raise Undecided("prelude-mismatch", "lower_type_gate prelude changed shape")
     head = head.replace("fn validate(&self, attrs: &Attrs, context: AttributeContext, errors: &mut ErrorStore)",
                         "fn validate(&self, attrs: &Attrs, context: AttributeContext<'_>, errors: &mut ErrorStore)")
@@ -217,6 +259,7 @@ def build(tier):
     vf.add(G.OUT_SPECS)
     vf.add(EXTRA_PRELUDE)
     vf.add(SPLL)
+    vf.add(LAM_SPECS)
     vf.add("impl<'ast, V: AttributeValidator> LoweringContext<'ast, V> {" + tail)
     vf.add(ABSTRACT_GATES.format(FRAME=G.FRAME))
 
@@ -253,16 +296,53 @@ def build(tier):
           lambda m: "proof { assert(takes_write == spec_takes_write(method)); assert(ast_params@ == input_params(method)); }\n        " + m.group(1), count=1, why="ghost: link the split to the oracle")
     G.common_body_edits(p)
     vf.add_piece(p, expected="lower_method")
+    it = src.item("impl LoweringContext<'ast>::lower_all_methods", "fn")
+    p = Piece(src, it)
+    p.expect_loops(1)
+    p.contract(LAM_CONTRACT, ret_name="res")
+    p.loop_spec(0, LAM_INV, iter_name="it")
+    p.loop_body_prefix(0, LAM_HINT)
+    p.sub("E7", r"in it: ast_methods \{", "in it: ast_methods.iter() {", count=None, why="`for x in slice` spelled `slice.iter()`")
+    def e17(text):
+        m = re.search(r"if ([^{};]+?) \{\s*continue;\s*\}", text)
+        if not m:
+            return text, []   # no `continue` guard: verify as written
+        # wrap the remainder of the loop body in the else branch: the loop body ends at the brace that closes the for
+        from rsrc import match_close
+        fo = text.rfind("{", 0, m.start())
+        # find the opening brace of the enclosing for-body: the nearest `{` whose matching close lies after the guard
+        k = m.start()
+        depth_open = None
+        i = m.start() - 1
+        while i >= 0:
+            if text[i] == "{":
+                try:
+                    c = match_close(text, i)
+                except Exception:
+                    c = -1
+                if c > m.end():
+                    depth_open = (i, c)
+                    break
+            i -= 1
+        if depth_open is None:
+            raise Undecided("edit-mismatch", "E17: enclosing loop body not found")
+        (bo, bc) = depth_open
+        rest = text[m.end():bc]
+        new = "if !(" + m.group(1) + ") {" + rest + "}\n        "
+        return text[:m.start()] + new + text[bc:], [(m.group(0), "if !(" + m.group(1) + ") { <rest of loop body> }")]
+    p.fn("E17", e17, why="`continue` in a for loop is unsupported by Verus: `if c { continue; } REST` rewritten to `if !c { REST }`")
+    G.common_body_edits(p)
+    vf.add_piece(p, expected="lower_all_methods")
     vf.add("}\n")
     vf.expected += ["lemma_write_only_last"]
     vf.add(vhelp.FOOTER)
     return vf
 
 
-CANARY_FUNCTIONS = ["lower_param", "lower_many_params", "lower_method"]
+CANARY_FUNCTIONS = ["lower_param", "lower_many_params", "lower_method", "lower_all_methods"]
 ASSUMPTIONS = list(G.ASSUMPTIONS) + [
     "lower_type / lower_self_param / lower_return_type are abstract in this unit with the contracts proved in unit lower_type_gate (same contract text constants)",
     "lower_ident (strck identifier validation) and SelfParamLifetimeLowerer::new abstract: may fail, and then push an error",
     "<[T]>::split_last assume_specification; derived PartialEq on TypeName structural",
 ]
-UNVERIFIED = {"C05": ["lower_struct / lower_out_struct field loops and the is_ffi_safe gate call", "lower_all_methods", "validate / validate_ty_in_method"], "C15": []}
+UNVERIFIED = {"C13": ["Attrs::from_ast (how disable is computed from the cfg: syn Meta dispatch)"], "C05": ["lower_struct / lower_out_struct field loops and the is_ffi_safe gate call", "validate / validate_ty_in_method"], "C15": []}
